@@ -47,11 +47,12 @@ def step (s : State) (j : Json) : Except String (State × Json × List Fired) :=
     let deps ← (← jarr j "deposits").mapM fun e => match e with
       | .arr #[a, b, .arr c] => do pure ((← asNat a), (← asNat b), (← c.toList.mapM asNat))
       | _ => throw "bad genesis deposit"
-    let ok := genesisDepositsOk nd tunnels deps
+    let count := (jnat j "count").toOption.getD tunnels.length
+    let ok := genesisDepositsOk nd tunnels deps && genesisTunnelsOk count (tunnels.map (·.1))
     let iacc ← jbool out "accepted"
     let mut fired : List Fired := []
     if iacc && !ok then
-      fired := fired ++ [{ name := "genesis_with_unbacked_total_deposit_accepted", detail := mkObj [("variant", (j.getObjVal? "variant").toOption.getD Json.null)] }]
+      fired := fired ++ [{ name := "invalid_genesis_accepted", detail := mkObj [("variant", (j.getObjVal? "variant").toOption.getD Json.null)] }]
     if !iacc && ok then
       fired := fired ++ [{ name := "reachable_state_rejected_as_genesis", detail := mkObj [("err", (out.getObjVal? "err").toOption.getD Json.null)] }]
     return (s, mkObj [("accepted", jb ok), ("err", (out.getObjVal? "err").toOption.getD Json.null)], fired)
@@ -61,6 +62,8 @@ def step (s : State) (j : Json) : Except String (State × Json × List Fired) :=
     | "withdraw" => do pure (withdrawOp s (← jnat j "tid") (← jnat j "acct") (← parseCoins s j "amt"))
     | "activate" => do pure (activateOp s (← jnat j "tid") (← jnat j "acct"))
     | "deactivate" => do pure (deactivateOp s (← jnat j "tid") (← jnat j "acct"))
+    | "setMinDeposit" => do pure ({ s with minDeposit := ← parseCoins s j "amt" }, Err.ok)   -- MsgUpdateParams (no tunnel is touched)
+    | "reimport" => do pure (s, Err.ok)    -- genesis export → validate → import on a store branch: nothing changes
     | _ => throw s!"unknown op {op}"
   -- monitors on the implementation's dump
   let mut fired : List Fired := []
@@ -87,8 +90,10 @@ def step (s : State) (j : Json) : Except String (State × Json × List Fired) :=
       if act != iactive.contains idx then
         fired := fired ++ [{ name := "active_flag_ne_active_index", detail := mkObj [("tunnel", jn idx)] }]
       let minOk := (List.range nd).all fun i => s.minDeposit (s.denoms.getD i "") ≤ total.getD i 0
-      if act && !minOk then
-        fired := fired ++ [{ name := "active_below_min_deposit", detail := mkObj [("tunnel", jn idx)] }]
+      -- judged on the tunnel the operation is about: an activation, or a withdrawal that leaves it active, below the minimum
+      -- (a minimum raised later by governance leaves existing active tunnels alone)
+      if act && !minOk && (op == "activate" || op == "withdraw") && (jstr out "err").toOption.getD "" == "" && (jnat j "tid").toOption == some idx then
+        fired := fired ++ [{ name := "active_below_min_deposit", detail := mkObj [("tunnel", jn idx), ("op", js op)] }]
   if imodule != sumTotals then
     fired := fired ++ [{ name := "module_balance_ne_total_deposits", detail := mkObj [("module", jl (imodule.map jn)), ("totals", jl (sumTotals.map jn))] }]
   if (← jstr out "err") == "" then
@@ -118,7 +123,10 @@ def step (s : State) (j : Json) : Except String (State × Json × List Fired) :=
       match s.tunnels tid with
       | some t => if t.creator != a then fired := fired ++ [{ name := "non_creator_deactivated", detail := mkObj [("tunnel", jn tid)] }]
       | none => pure ()
-  pure (s', (dump s').setObjVal! "err" (js (errCode e)), fired)
+  let mout := (dump s').setObjVal! "err" (js (errCode e))
+  if op == "reimport" && !jsonEq out mout then
+    fired := fired ++ [{ name := "genesis_roundtrip_changes_state", detail := mkObj [("err", (out.getObjVal? "err").toOption.getD Json.null)] }]
+  pure (s', mout, fired)
 
 def initSt (j : Json) : State :=
   let denoms := (jstrList j "denoms").toOption.getD ["uband"]
